@@ -42,10 +42,15 @@ type scenario struct {
 	batches    [][]entry
 	prog       []consumerOp
 	lossErrors bool
+	endFlag    bool // the last entry of the last batch carries End (as for a FIN/RST segment with payload)
 }
 
 func (s scenario) String() string {
-	return fmt.Sprintf("deliveries=%v then Complete; consumer=%v lossErrors=%v", s.batches, s.prog, s.lossErrors)
+	e := ""
+	if s.endFlag {
+		e = " (last entry has End set)"
+	}
+	return fmt.Sprintf("deliveries=%v%s then Complete; consumer=%v lossErrors=%v", s.batches, e, s.prog, s.lossErrors)
 }
 
 func entryKinds(thorough bool) []entry {
@@ -176,6 +181,10 @@ func runOnce(t *testing.T, sc scenario, c *dfs.Chooser) (res result) {
 		}
 		bl = append(bl, x)
 	}
+	if sc.endFlag && len(bl) > 0 {
+		last := bl[len(bl)-1].rs
+		last[len(last)-1].End = true
+	}
 	var o obs
 	var asmPanic, conPanic any
 	var asmStack, conStack []byte
@@ -240,10 +249,10 @@ func runOnce(t *testing.T, sc scenario, c *dfs.Chooser) (res result) {
 								r.Bytes[:cap(r.Bytes)][i] = 0xEE
 							}
 						}
-						for i := range bl[k].orig {
-							for j := range bl[k].orig[i] {
-								_ = j
-							}
+						// ... and the Reassembly objects themselves: its next batch, for whatever
+						// connection, is written into the same elements
+						for i := range bl[k].rs {
+							bl[k].rs[i] = tcpassembly.Reassembly{Bytes: []byte{0xE1, 0xE2, 0xE3, 0xE4}}
 						}
 					})
 				} else {
@@ -369,7 +378,18 @@ func TestExplore(t *testing.T) {
 	for _, le := range []bool{false, true} {
 		for _, h := range hs {
 			for _, p := range ps {
-				scen = append(scen, scenario{h, p, le})
+				scen = append(scen, scenario{h, p, le, false})
+			}
+		}
+	}
+	// the same with End set on the last delivered entry (appended, so that earlier replay indices stay valid)
+	for _, le := range []bool{false, true} {
+		for _, h := range hs {
+			if len(h) == 0 {
+				continue
+			}
+			for _, p := range ps {
+				scen = append(scen, scenario{h, p, le, true})
 			}
 		}
 	}
